@@ -10,6 +10,7 @@ import (
 	"crypto/aes"
 	"math/big"
 
+	"github.com/pkg/errors"
 	"github.com/xelaj/go-dry"
 )
 
@@ -76,24 +77,40 @@ func doAES256IGEdecrypt(data, out, key, iv []byte) error {
 }
 
 // DecryptMessageWithTempKeys дешифрует сообщение паролем, которые получены в процессе обмена ключами диффи хеллмана
+//
+// It panics on malformed input; code which handles data from the network must use TryDecryptMessageWithTempKeys.
 func DecryptMessageWithTempKeys(msg []byte, nonceSecond, nonceServer *big.Int) []byte {
+	res, err := TryDecryptMessageWithTempKeys(msg, nonceSecond, nonceServer)
+	check(err)
+	return res
+}
+
+// TryDecryptMessageWithTempKeys is DecryptMessageWithTempKeys which reports malformed input (length is not a
+// positive multiple of the block size, no room for the hash, hash does not match the content) as an error.
+func TryDecryptMessageWithTempKeys(msg []byte, nonceSecond, nonceServer *big.Int) ([]byte, error) {
 	key, iv := generateTempKeys(nonceSecond, nonceServer)
 	decodedWithHash := make([]byte, len(msg))
 	err := doAES256IGEdecrypt(msg, decodedWithHash, key, iv)
-	check(err)
+	if err != nil {
+		return nil, err
+	}
 
 	// decodedWithHash := SHA1(answer) + answer + (0-15 рандомных байт); длина должна делиться на 16;
-	decodedHash := decodedWithHash[:20]
-	decodedMessage := decodedWithHash[20:]
+	const hashLen = 20
+	if len(decodedWithHash) < hashLen {
+		return nil, ErrDataTooSmall
+	}
+	decodedHash := decodedWithHash[:hashLen]
+	decodedMessage := decodedWithHash[hashLen:]
 
 	// режем последние 0-15 байт ориентируюясь по хешу
 	for i := len(decodedMessage); i > len(decodedMessage)-16 && i >= 0; i-- {
 		if bytes.Equal(decodedHash, dry.Sha1Byte(decodedMessage[:i])) {
-			return decodedMessage[:i]
+			return decodedMessage[:i], nil
 		}
 	}
 
-	panic("couldn't trim message: hashes incompatible on more than 16 tries")
+	return nil, errors.New("couldn't trim message: hashes incompatible on more than 16 tries")
 }
 
 // EncryptMessageWithTempKeys шифрует сообщение паролем, которые получены в процессе обмена ключами диффи хеллмана
